@@ -96,8 +96,47 @@ def map_char(eng, c, name):
         else:
             rs.append([x, x])
     if eng.truth(in_ranges(eng, c, rs)):
-        raise Unsupported("non-ASCII character with a case mapping (outside the stated alphabet)")
+        # a non-ASCII cased character: one path per value (the alphabet has to keep these few), the real mapping decides
+        v = eng.concretize_int(c, "non-ASCII cased character", limit=48)
+        r = getattr(chr(v), name)()
+        if len(r) != 1:
+            raise Unsupported("case mapping changes length")
+        return ord(r)
     return c
+
+
+def casefold_chars(eng, cs):
+    """str.casefold: ASCII as lower(); a non-ASCII character whose folding differs from itself is taken value by value
+    (the folded form may be longer: 'ß' -> 'ss')"""
+    global _FOLD_RANGES
+    if _FOLD_RANGES is None:
+        rs = []
+        for x in range(128, 0x110000):
+            if 0xD800 <= x <= 0xDFFF:
+                continue
+            if chr(x).casefold() != chr(x):
+                if rs and rs[-1][1] == x - 1:
+                    rs[-1][1] = x
+                else:
+                    rs.append([x, x])
+        _FOLD_RANGES = rs
+    out = []
+    for c in cs:
+        if isinstance(c, int):
+            out.extend(ord(ch) for ch in chr(c).casefold())
+            continue
+        if eng.truth(eng.cmp("Lt", c, 128)):
+            out.append(map_char(eng, c, "lower"))
+            continue
+        if eng.truth(in_ranges(eng, c, _FOLD_RANGES)):
+            v = eng.concretize_int(c, "non-ASCII character with a case folding", limit=48)
+            out.extend(ord(ch) for ch in chr(v).casefold())
+        else:
+            out.append(c)
+    return out
+
+
+_FOLD_RANGES = None
 
 
 WHITESPACE = None
@@ -184,6 +223,8 @@ def str_method(eng, s, n, args, kw):
         return eng.concat_str(parts)
     if n in ("lower", "upper"):
         return mkstr([map_char(eng, c, n) for c in cs])
+    if n == "casefold":
+        return mkstr(casefold_chars(eng, cs))
     if n in ("isalpha", "isdigit", "isnumeric", "isspace", "isupper", "islower", "isalnum", "isdecimal"):
         if not cs:
             return False
